@@ -73,6 +73,11 @@ def _family(args):
             # the documented initial state is the scaled transform of p_i (not whatever the wrapper stores as m_i)
             m_f, m_i, scale_rf = float(fp.m_scaled_func(pf)), float(fp.m_scaled_func(pi)), 1.0
         mol = None
+        if tab.endswith(":11"):
+            # this family's ladder comes from a study script that keeps its resolutions in a narrow integer array
+            # (np.int16) and goes one rung further, to nx = 200, where nx*nx no longer fits that width
+            rr = [r for r in rr if r[0] < 200] + [(200, 20000)]
+            rr = list(zip(np.array([r[0] for r in rr], dtype=np.int16), [r[1] for r in rr]))
         for nx, nt in rr:
             t = np.linspace(0, math.sqrt(T_END), nt) ** 2
             obj = (IdealReservoir if kind == "ideal" else SinglePhaseReservoir)(nx, pf, pi, rdrv.flow_properties(tab_obj, pi))
@@ -103,7 +108,9 @@ def _family(args):
             err_t = np.abs(u[mask] - exf).max(axis=1)
             e_field = float((err_t * np.sqrt(np.pi * t[mask])).max())
             e_rf = float(np.abs(rf / scale_rf / (m_i - m_f if kind == "single" else 1.0) - exr).max())
-            out.append({"nx": nx, "nt": nt, "e_field": e_field, "e_rf": e_rf, "e_field_sup": float(err_t.max())})
+            # an error that is not a number (a field of NaN) is the largest error there is
+            e_field, e_rf = (e if math.isfinite(e) else 1e9 for e in (e_field, e_rf))
+            out.append({"nx": int(nx), "nt": nt, "e_field": e_field, "e_rf": e_rf, "e_field_sup": float(err_t.max())})
         return fam, out, None
     except Exception as ex:  # noqa: BLE001
         import traceback  # noqa: PLC0415
